@@ -151,6 +151,10 @@ int main(int argc, char *argv[])
             cf_pdu = pdu;
         }
 
+        // The datagram must at least hold the shorter control format header
+        if ((uint64_t)res < proc_bytes + AVTP_NTSCF_HEADER_LEN)
+            continue;
+
         // Check if the packet is a control format packet (i.e. NTSCF or TSCF)
         subtype = Avtp_CommonHeader_GetSubtype((Avtp_CommonHeader_t*)cf_pdu);
         if (subtype == AVTP_SUBTYPE_TSCF){
@@ -160,6 +164,12 @@ int main(int argc, char *argv[])
             proc_bytes += AVTP_NTSCF_HEADER_LEN;
             msg_length = Avtp_Ntscf_GetNtscfDataLength((Avtp_Ntscf_t*)cf_pdu);
         }
+
+        // The datagram must hold the control format header, the fixed VSS
+        // header and the shortest VSS path (a static ID)
+        if ((uint64_t)res < proc_bytes + AVTP_VSS_FIXED_HEADER_LEN + 4)
+            continue;
+        uint64_t vss_bytes = (uint64_t)res - proc_bytes;
 
         // Check if the control packet payload is a ACF GPC.
         acf_pdu = &pdu[proc_bytes];
@@ -172,13 +182,21 @@ int main(int argc, char *argv[])
         // Parse the VSS Packet and print contents on the STDOUT
         Vss_AddrMode_t addrMode;
         VssPath_t path;
+        char path_string[MAX_PDU_SIZE];
         addrMode = Avtp_Vss_GetAddrMode((Avtp_Vss_t*)acf_pdu);
+        if (addrMode != VSS_INTEROP_MODE && addrMode != VSS_STATIC_ID_MODE)
+            continue;
+
+        // The path (length taken from the packet) must lie inside the datagram
+        uint32_t path_bytes = Avtp_Vss_CalcVssPathLength((Avtp_Vss_t*)acf_pdu);
+        if (vss_bytes < AVTP_VSS_FIXED_HEADER_LEN + (uint64_t)path_bytes)
+            continue;
+
+        path.vss_interop_path.path = path_string;
         Avtp_Vss_GetVssPath((Avtp_Vss_t*)acf_pdu, &path);
 
         if (addrMode == VSS_INTEROP_MODE) {
-            char path_string[path.vss_interop_path.path_length+1];
-            memset(path_string, '\0', path.vss_interop_path.path_length+1);
-            memcpy(path_string, path.vss_interop_path.path, path.vss_interop_path.path_length);
+            path_string[path.vss_interop_path.path_length] = '\0';
             printf("VSS Path: %s, ", path_string);
         } else if (addrMode == VSS_STATIC_ID_MODE) {
             printf("VSS Path: %d, ", path.vss_static_id_path);
@@ -186,9 +204,11 @@ int main(int argc, char *argv[])
 
         VssData_t data;
         Vss_Datatype_t dt = Avtp_Vss_GetDatatype((Avtp_Vss_t*)acf_pdu);
-        Avtp_Vss_GetVssData((Avtp_Vss_t*)acf_pdu, &data);
 
-        if (dt == VSS_FLOAT) {
+        // Only float values are decoded (other datatypes need result buffers)
+        if (dt == VSS_FLOAT &&
+            vss_bytes >= AVTP_VSS_FIXED_HEADER_LEN + (uint64_t)path_bytes + sizeof(float)) {
+            Avtp_Vss_GetVssData((Avtp_Vss_t*)acf_pdu, &data);
             printf("VSS Value: %f\n", data.data_float);
         }
 
